@@ -32,7 +32,7 @@ ASSUMPTIONS = [
     "Partial reverts are only issued under the documented precondition (last assignment on an individual-axis variable; no read of a variable without the individual axis since).",
     "After an assignment made with auto-fork off, `revert` may either raise LeaspyInputError or succeed; only the values read afterwards are judged.",
 ]
-REQUIRED_CLASSES = {"nontrivial": 0.02, "B:partial-revert": 100, "B:model-graph": 200, "B:revert": 300, "B:clone": 300}
+REQUIRED_CLASSES = {"nontrivial": 0.02, "B:weighted-variable": 200, "B:partial-revert": 100, "B:model-graph": 200, "B:revert": 300, "B:clone": 300}
 
 MOD = "vf.checks.c01"
 
@@ -169,21 +169,23 @@ def random_toy_graph(spec):
     from leaspy.variables.specs import DataVariable, Hyperparameter
 
     n = spec["n_ind"]
-    specs, ind, shapes = {}, set(), {}
+    specs, ind, shapes, weighted = {}, set(), {}, set()
     for name, k in spec["indep"]:
         if k == "hyper":
             specs[name] = Hyperparameter(1.5)
         else:
             specs[name] = DataVariable()
-            shapes[name] = {"ind": (n, 2), "pop": (), "popvec": (2,)}[k]
-            if k == "ind":
+            shapes[name] = {"ind": (n, 2), "indw": (n, 2), "pop": (), "popvec": (2,)}[k]
+            if k in ("ind", "indw"):
                 ind.add(name)
+            if k == "indw":
+                weighted.add(name)  # a WeightedTensor-valued variable (all share one weight pattern)
     for name, op, parents in spec["derived"]:
         arity, tpl, reduces = GRAMMAR[op]
         specs[name] = _lv(tpl.format(*parents))
         if any(p in ind for p in parents) and not reduces:
             ind.add(name)
-    return specs, ind, shapes
+    return specs, ind, shapes, weighted
 
 
 @st.composite
@@ -191,7 +193,7 @@ def toy_graph_spec(draw):
     n_ind = draw(st.sampled_from([3, 5]))
     k_ind = draw(st.integers(1, 3))
     k_pop = draw(st.integers(0, 2))
-    indep = [[f"i{j}", "ind"] for j in range(k_ind)] + [[f"p{j}", draw(st.sampled_from(["pop", "popvec"]))] for j in range(k_pop)]
+    indep = [[f"i{j}", draw(st.sampled_from(["ind", "ind", "indw"]))] for j in range(k_ind)] + [[f"p{j}", draw(st.sampled_from(["pop", "popvec"]))] for j in range(k_pop)]
     if draw(st.booleans()):
         indep.append(["h0", "hyper"])
     names = [x[0] for x in indep]
@@ -241,8 +243,10 @@ class Ctx:
         self.indep = [n for n in dag.sorted_variables_names if not isinstance(dag[n], LinkedVariable)]
 
 
-def toy_ctx(specs, ind, shapes, *, init_full: bool, mode: str, n_ind: int, label: str):
+def toy_ctx(specs, ind, shapes, *, init_full: bool, mode: str, n_ind: int, label: str, weighted=()):
     import torch
+
+    from leaspy.utils.weighted_tensor import WeightedTensor
 
     from leaspy.variables.dag import VariablesDAG
     from leaspy.variables.state import State, StateForkType
@@ -250,13 +254,17 @@ def toy_ctx(specs, ind, shapes, *, init_full: bool, mode: str, n_ind: int, label
     dag = VariablesDAG.from_dict(specs)
     s = State(dag, auto_fork_type={"REF": StateForkType.REF, "COPY": StateForkType.COPY, "NONE": None}[mode])
 
+    def weight_of(shape):
+        return torch.tensor([[(i + j) % 3 != 0 for j in range(shape[1])] for i in range(shape[0])])
+
     def mkval(name, vals):
-        return gen.tensor_from(vals, shapes[name])
+        t = gen.tensor_from(vals, shapes[name])
+        return WeightedTensor(t, weight_of(shapes[name])) if name in weighted else t
 
     if init_full:
         with s.auto_fork(None):
             for i, (n, shp) in enumerate(sorted(shapes.items())):
-                s[n] = gen.tensor_from([1.0 + i, 2.0 + i, 3.5 + i, -1.25, 0.5, 7.0], shp)
+                s[n] = mkval(n, [1.0 + i, 2.0 + i, 3.5 + i, -1.25, 0.5, 7.0])
         s.precompute_all()
     return Ctx(dag, s, set(ind), mkval, n_ind, label)
 
@@ -390,9 +398,16 @@ def run_history(ctx: Ctx, ops, *, stats=None):
             old_copy = fast_copy(old)
             snap = snapshot_indep(exclude=(name,))
             is_w = isinstance(old, WeightedTensor)
-            if is_w and (rows is not None):
-                continue  # indexed put on weighted data variables is not used by leaspy
-            if rows is None:
+            if is_w and (rows is not None) and getattr(ctx, "model", None) is not None:
+                continue  # indexed put on the weighted *data* variables of the shipped models is never issued by leaspy
+            if is_w and rows is not None:
+                rows_ = sorted({r % old.shape[0] for r in rows})
+                sub = full.value[rows_]
+                ev = old.value.clone()
+                ev[rows_] = (ev[rows_] + sub) if acc else sub
+                exp = WeightedTensor(ev, old.weight)
+                s.put(name, sub, indices=(rows_,), accumulate=acc)
+            elif rows is None:
                 if acc:
                     exp = old + full
                     s.put(name, full, accumulate=True)
@@ -629,7 +644,7 @@ def ops_strategy(settable, ind_settable, derived, all_names, ind_axis, n_steps=(
 @st.composite
 def toy_case(draw):
     spec = draw(toy_graph_spec())
-    specs, ind, shapes = random_toy_graph(spec)
+    specs, ind, shapes, weighted = random_toy_graph(spec)
     settable = sorted(shapes)
     derived = [d[0] for d in spec["derived"]]
     all_names = settable + derived + [x[0] for x in spec["indep"] if x[1] == "hyper"]
@@ -638,8 +653,10 @@ def toy_case(draw):
 
 
 def body_toy(col: Collector, case):
-    specs, ind, shapes = random_toy_graph(case["graph"])
-    ctx = toy_ctx(specs, ind, shapes, init_full=case["init_full"], mode=case["mode"], n_ind=case["graph"]["n_ind"], label="toy")
+    specs, ind, shapes, weighted = random_toy_graph(case["graph"])
+    ctx = toy_ctx(specs, ind, shapes, init_full=case["init_full"], mode=case["mode"], n_ind=case["graph"]["n_ind"], label="toy", weighted=weighted)
+    if weighted:
+        col.cls("B:weighted-variable")
     info = judge(col, ctx, case["ops"], case, "history-toy")
     _count(col, case, info, "B:toy-graph")
 
